@@ -255,6 +255,18 @@ fn check(case: &Case) -> CheckResult {
                     }
                     continue;
                 }
+                if out.success() && new_ops.is_empty() {
+                    // "Nothing changed.": the state to restore equals the current one, jj records
+                    // no operation (so its undo stack does not advance either). Sound only if the
+                    // two model states really are equal.
+                    if !views_match(&world, &list[cursor], &list[cursor - 1]).map_err(Violation::new)? {
+                        return Err(Violation::new(format!(
+                            "{what}: undo reported success without creating an operation although the \
+                             state before the undone operation differs from the current one"
+                        )));
+                    }
+                    continue;
+                }
                 if !special_ok {
                     return Err(Violation::new(format!(
                         "{what}: undo failed although there is an operation to undo: {}",
@@ -286,6 +298,15 @@ fn check(case: &Case) -> CheckResult {
                         return Err(Violation::new(format!(
                             "{what}: redo succeeded although nothing was undone (text-editor model \
                              cursor at the end)"
+                        )));
+                    }
+                    continue;
+                }
+                if out.success() && new_ops.is_empty() {
+                    if !views_match(&world, &list[cursor], &list[cursor + 1]).map_err(Violation::new)? {
+                        return Err(Violation::new(format!(
+                            "{what}: redo reported success without creating an operation although the \
+                             undone state differs from the current one"
                         )));
                     }
                     continue;
